@@ -665,7 +665,7 @@ Proof.
     cbn [set_heap st_heap]. rewrite hset_length. apply Nat.le_refl. }
   destruct (negb (is_local =? 0)%N).
   - destruct (top_offset s1) as [off|]; [|exact I].
-    destruct (scount s1 <=? off + N.to_nat index); [exact I|].
+    destruct (scount s1 <=? off + N.to_nat index); [exact H1|].
     set (loc := off + N.to_nat index).
     destruct (vi_open P start s1 I1) as (l & Hch & Hnd).
     destruct (walk_open _ (st_heap s1) loc None (st_open s1)) as [prev cur|] eqn:Ew; [|exact I].
